@@ -373,7 +373,7 @@ Section Step.
     end.
 
   Definition coarse_fuel (st : state) : nat :=
-    fold_left (fun n t => (n + (16 + 2 * maxlen cfg) * (1 + length (todo t)))%nat) (snd st) 16%nat.
+    fold_left (fun n t => (n + (24 + 2 * maxlen cfg) * (1 + length (todo t)))%nat) (snd st) 24%nat.
 
   Definition run_coarse (sched : list nat) (st : state) : state :=
     fold_left (fun st i => settle (coarse_fuel st) i (step_at i st)) sched st.
